@@ -12,7 +12,7 @@ THEOREMS = ["SCP.RegexBounds.find_in_bounds", "SCP.RegexBounds.all_in_bounds", "
             "SCP.Termination.unitPass_mu", "SCP.Termination.unitLoop_stable", "SCP.Termination.model_fuel_suffices",
             "SCP.Termination.gen_rules_ok", "SCP.Termination.gen_units_ok",
             "SCP.ParserTotal.parseExpr_total", "SCP.ParserTotal.parseExpr_consumes"]
-RULE = ("texts from five streams (clock literals in the extreme zones under default zones at the other extreme; random characters over a hostile alphabet incl. multi-byte, atoms, braces, long digit "
+RULE = ("texts from six streams (characters whose case mapping changes their byte length around month and zone names, en and tr; clock literals in the extreme zones under default zones at the other extreme; random characters over a hostile alphabet incl. multi-byte, atoms, braces, long digit "
         "runs; well-formed lines of all kinds with one random corruption; a curated list of panic-prone shapes; "
         "multi-line texts with LF/CRLF/mixed/trailing separators) x language tags en, tr, unknown, empty x "
         "configurations from all public setters; non-trivial = the text contains at least one token-forming "
@@ -215,6 +215,32 @@ def run(ctx, model_ok):
             t_ = rng.choice(["10:00", "9:30 pm", "23:59:59", "0:00", "11:30"])
             for text in (f"{t_} {z}", f"1 + 2\n{t_} {z}\n3 * 4", f"{t_} {z} {rng.choice(far_w + far_e)}", f"{t_} {z} to {rng.choice(far_w + far_e)}", f"{t_} {z} + 1 hour"):
                 cases.append(([] if dz == "UTC" else [{"op": "tz", "v": dz}], "en", text))
+    # characters whose lower / upper case has another byte length, growing and shrinking ones mixed so that the lengths cancel
+    # (İ ŉ ǰ ß ΐ grow, Ω K Å ẞ shrink), around month names (both languages) and zone names: spans found in a case-mapped
+    # copy of the line are translated back character by character
+    grow, shrink = ["İ", "ŉ", "ǰ", "ß", "ΐ", "İstanbul", "ŉŉ"], ["\u2126", "\u212a", "\u212b", "ẞ", "\u2126\u2126"]
+    months_tr = ["mayıs", "kasım", "eylül", "ağu", "şubat", "ağustos", "ekim", "oca"]
+    months_en = ["may", "march", "december", "aug"]
+    for s_ in shrink:
+        for m_ in months_tr[:5]:
+            for g_ in grow:
+                cases.append(([], "tr", f"10 {s_} direnç 5 {m_} 2020 {g_}"))
+    for s_ in ["ŉŉ", "ǰ"]:
+        for z_ in ["EST", "CET"]:
+            cases.append(([], "en", f"{s_} 11:30 {z_}€ ıı"))
+    for _ in range(ctx.n(250, 6000)):
+        lang = rng.choice(["tr", "tr", "en"])
+        mon = rng.choice(months_tr if lang == "tr" else months_en)
+        parts = [rng.choice(shrink), rng.choice(["direnç", "x", "10"]), f"{rng.randint(1, 28)} {mon} {rng.randint(1990, 2030)}", rng.choice(grow)]
+        if rng.random() < 0.5:
+            parts.insert(rng.randint(0, len(parts)), rng.choice(grow + shrink))
+        if rng.random() < 0.4:
+            parts.insert(rng.randint(0, len(parts)), f"{rng.randint(0, 23)}:{rng.randint(0, 59):02d} {rng.choice(['EST', 'cet', 'Pst'])}")
+        rng.shuffle(parts) if rng.random() < 0.5 else None
+        text = " ".join(parts)
+        if rng.random() < 0.3:
+            text = "1 + 1\n" + text + "\n2 * 2"
+        cases.append(([], lang, text))
     n = ctx.n(2500, 150000)
     for _ in range(n):
         lang = rng.choice(["en"] * 6 + ["tr"] * 3 + ["xx"])
